@@ -70,7 +70,11 @@ pub struct Cfg5 {
     /// "t/a", "t/{x}" and a default; client: `resource()` routes
     pub router: bool,
     pub hs: Hs5,
-    /// server: keep the default in-flight middleware (true) or replace it
+    /// server: CONNACK announces RETAIN / subscription identifiers as unavailable
+    #[serde(default)]
+    pub no_retain: bool,
+    #[serde(default)]
+    pub no_sub_ids: bool,
     pub connect: s5::Connect5,
     /// client role: CONNACK the scripted server answers with
     pub connack: s5::ConnAck5,
@@ -91,6 +95,8 @@ impl Default for Cfg5 {
             write_hw: 0,
             router: false,
             hs: Hs5::default(),
+            no_retain: false,
+            no_sub_ids: false,
             connect: s5::Connect5 { client_id: "cid".into(), clean_start: true, ..Default::default() },
             connack: s5::ConnAck5::default(),
         }
@@ -325,6 +331,7 @@ pub async fn server_pipeline(
     sinks: Rc<RefCell<Vec<v5::MqttSink>>>,
 ) -> SrvPipeline {
     let hs = cfg.hs.clone();
+    let (no_retain, no_sub_ids) = (cfg.no_retain, cfg.no_sub_ids);
     let app_h = app.clone();
     let handshake = move |h: v5::Handshake| {
         let hs = hs.clone();
@@ -341,6 +348,12 @@ pub async fn server_pipeline(
                     }
                     if max_send.is_some() {
                         ack = ack.max_send(max_send);
+                    }
+                    if no_retain || no_sub_ids {
+                        ack = ack.with(|a| {
+                            a.retain_available = !no_retain;
+                            a.subscription_identifiers_available = !no_sub_ids;
+                        });
                     }
                     Ok::<_, AppErr>(ack)
                 }
